@@ -21,7 +21,7 @@ RULE = ('tree models (generator of C13) printed with random indentation, blank l
 REQUIRED = {'errors_checked': 500, 'object_processor_errors': 150, 'match_processor_errors': 100, 'own_location_kept': 50,
             'wrapped_foreign_exceptions': 80, 'imported_file_errors': 40, 'string_loads': 50, 'nchar_checked': 100,
             'partial_location_completed': 60, 'inner_match_of_composite_match_rule': 50,
-            'inner_match_after_newline_inside_composite': 15}
+            'inner_match_after_newline_inside_composite': 15, 'loads_with_use_regexp_group': 100}
 
 
 def pr(n, spans, ind, r, out):
@@ -199,12 +199,20 @@ def one(ctx, i, rep=None):
             fail(v)
         return v
 
+    urg = (i % 5 == 2)      # use_regexp_group: the Tag rule is a regex with one group, its value is that group
+
     def tagproc(v):
-        if is_match and key.startswith('tag:') and v == texts[fi][span[0]:span[1]]:
+        if is_match and key.startswith('tag:') and v == texts[fi][span[0] + (1 if urg else 0):span[1]]:
             fail(v)
+        return v
     wrap = textxerror_wrap if variant == 'wrapped' else (lambda f: f)
-    mm = metamodel_from_str(T.GRAMMAR.replace('Val: INT | STRING;', "Val: Range | INT | STRING;\nRange: Num '..' Num;\nNum: /\\d+/;")
-                            + 'Comment: /\\/\\/.*$/;\n')
+    gtext = T.GRAMMAR.replace('Val: INT | STRING;', "Val: Range | INT | STRING;\nRange: Num '..' Num;\nNum: /\\d+/;") \
+        + 'Comment: /\\/\\/.*$/;\n'
+    if urg:
+        assert 'Tag: /#\\w+/;' in gtext
+        gtext = gtext.replace('Tag: /#\\w+/;', 'Tag: /#(\\w+)/;')
+        ctx.count('loads_with_use_regexp_group')
+    mm = metamodel_from_str(gtext, use_regexp_group=urg)
     mm.register_scope_providers({'*.*': sp.PlainNameImportURI()})
     procs = {'Val': wrap(valproc), 'Tag': wrap(tagproc), 'Num': wrap(numproc), 'Range': wrap(rangeproc)}
     if via_abstract:
